@@ -90,8 +90,8 @@ check(
 )
 
 E1_NOTE = ("The harness owns the schedule only at boundaries user code may implement (backend API, input iterator, task "
-           "bodies); windows inside joblib's own statement sequences are reached only by the uncontrolled real-backend runs; "
-           "n_jobs 2..4 and batch sizes <= 8 in the controlled engine; watchdogs (12 s, nothing pending for the driver) decide "
+           "bodies); windows inside joblib's own statement sequences are reached only by the uncontrolled real-backend runs (incl. a pre-emption stress variant: threading backend under a 1 us interpreter switch interval), i.e. probabilistically; "
+           "n_jobs 2..6 and batch sizes <= 8 in the controlled engine; watchdogs (12 s, nothing pending for the driver) decide "
            "non-termination.")
 
 check(
